@@ -8,7 +8,7 @@ def hx(s):
 
 
 def opk(rec):
-    (k, v), = rec["op"].items()
+    (k, v), = (rec["op"].items() if isinstance(rec["op"], dict) else [(rec["op"], {})])
     return k, v
 
 
